@@ -6,6 +6,10 @@ import YorkieModel.Driver.DocUpdEngine
 import YorkieModel.Driver.ChangeStoreEngine
 import YorkieModel.Driver.LruEngine
 import YorkieModel.Driver.AccessEngine
+import YorkieModel.Driver.SplayEngine
+import YorkieModel.Driver.TreeListEngine
+import YorkieModel.Driver.LlrbEngine
+import YorkieModel.Driver.TextEngine
 open Yorkie.Driver
 
 def engines : List (String × Engine) := [
@@ -15,7 +19,12 @@ def engines : List (String × Engine) := [
   ("store", ChangeStoreEngine.engine),
   ("storex", ChangeStoreEngine.engine),
   ("lru", LruEngine.engine),
-  ("access", AccessEngine.engine)
+  ("access", AccessEngine.engine),
+  ("splay", SplayEngine.engine),
+  ("treelist", TreeListEngine.engine),
+  ("llrb", LlrbEngine.engine),
+  ("text", TextEngine.engine),
+  ("textif", TextEngine.engine)
 ]
 
 partial def loop (e : Engine) (h : IO.FS.Stream) (out : IO.FS.Stream) (st : e.State) : IO Unit := do
